@@ -101,7 +101,9 @@ def py_value(name, v):
 
 def value_for(name, rng, obs=None):
     """A shape-consistent JSON value for `name`; drawn from small pools so that current values often match."""
-    if name == 'Name' or name == 'Object Group':
+    if name == 'Name':
+        return ['T', rng.choice(POOL) if rng.random() < 0.93 else '']      # the empty name is a legal TTLV text string
+    if name == 'Object Group':
         return ['T', rng.choice(POOL)]
     if name == 'Application Specific Information':
         a = rng.choice(ASI_POOL)
@@ -457,8 +459,11 @@ def sig_of(st, ver, kind):
         name = ((st['cur'][0] if st.get('cur') else st.get('ref')) if ver >= V2 else st.get('name'))
     elif f == 'set':
         name = st['new'][0] if st.get('new') else None
-    return {'op': {'mod': 'MODIFY_ATTRIBUTE', 'del': 'DELETE_ATTRIBUTE', 'set': 'SET_ATTRIBUTE'}[f],
-            'form': '2.0' if ver >= V2 else '1.x', 'attribute': name, 'kind': kind}
+    sig = {'op': {'mod': 'MODIFY_ATTRIBUTE', 'del': 'DELETE_ATTRIBUTE', 'set': 'SET_ATTRIBUTE'}[f],
+           'form': '2.0' if ver >= V2 else '1.x', 'attribute': name, 'kind': kind}
+    if f == 'del' and ver >= V2 and st.get('cur') is not None:
+        sig['current_value'] = jv_plain(st['cur'][1])
+    return sig
 
 
 _WEAK = [0]
@@ -504,17 +509,27 @@ def oracle_step(ctx, hist, k, st, ver, status_ok, reason, pre, post, pre_dump, p
         ctx.violation(sig_of(st, ver, 'success-without-object'), wit, 'success on an object that does not exist')
         return n + 1
     exp = expected_after_success(st, ver, pre_by[str(uid)])
+
+    def symptom(sig):
+        # a value-addressed deletion that took the delete-all path (collection empty afterwards, yet not by removing exactly the one equal instance)
+        if st['form'] == 'del' and ver >= V2 and st.get('cur') is not None and st['cur'][0] in MULTI:
+            fld0 = MULTI[st['cur'][0]]
+            before = pre_by[str(uid)][fld0]
+            if post_by[str(uid)][fld0] == [] and before != [jv_plain(st['cur'][1])]:     # not "exactly that one removed"
+                sig['symptom'] = 'all-instances-removed'
+        return sig
     if isinstance(exp, str):
-        _WEAK[0] += 1
-        if _WEAK[0] <= 10:      # leave room in the (capped) violation list for the stronger kinds
-            ctx.violation(sig_of(st, ver, 'no-exact-effect-possible'), dict(wit, before=pre_by[str(uid)], after=post_by[str(uid)]), exp)
+        if _WEAK[0] < 10:      # leave room in the (capped) violation list for the stronger kinds
+            if ctx.violation(symptom(sig_of(st, ver, 'no-exact-effect-possible')),
+                             dict(wit, before=pre_by[str(uid)], after=post_by[str(uid)]), exp) == 'new':
+                _WEAK[0] += 1
         return n + 1
     fld, content = exp
     want = dict(pre_by[str(uid)])
     want[fld] = content
     if want != post_by[str(uid)]:
         d = {f: (want[f], post_by[str(uid)][f]) for f in FIELDS if want[f] != post_by[str(uid)][f]}
-        ctx.violation(sig_of(st, ver, 'inexact-effect'), dict(wit, expected_vs_observed=d),
+        ctx.violation(symptom(sig_of(st, ver, 'inexact-effect')), dict(wit, expected_vs_observed=d),
                       'a successful call did not change exactly the addressed instance to the requested value')
         n += 1
     # 4. the 1.x responses echo the modified / deleted instance
@@ -642,6 +657,8 @@ def grid_history(rng, name, otype, ver1):
         A(form='mod', ver=ver1, attr=[name, idx, value_for(name, rng)])
     for idx in [7, -1, 1, None, 0]:
         A(form='del', ver=ver1, name=name, idx=idx)
+    if name == 'Name':
+        A(form='del', ver=V2, cur=['Name', ['T', '']])          # empty current value: addresses no instance here
     A(form='del', ver=V2, ref=n2)
     A(form='set', ver=ver1, new=[n2, value_for(name, rng)])
     return {'objects': objs, 'steps': steps}
@@ -677,6 +694,37 @@ def odd_history(rng):
 
 
 CHANGEABLE = ['Name', 'Object Group', 'Application Specific Information', 'Sensitive']
+
+
+def shared_history(rng, otype):
+    """Objects created in separate requests with the SAME group names, application specific information and names; every
+    changing form on object 1 (and then on object 3, another owner); GetAttributes of the others is read after every step."""
+    def spec(t, user):
+        return {'type': t, 'user': user, 'via': 'register', 'names': ['a', 'b'], 'groups': ['g', 'h'],
+                'asi': [['ns0', 'd0'], ['ns1', 'd1']], 'sens': None, 'mask': 12}
+    objs = [spec(otype, 'alice'), spec(rng.choice(list(TYPES)), 'alice'), spec('SYMMETRIC_KEY', 'bob')]
+    steps = []
+
+    def A(**kw):
+        kw.setdefault('user', 'alice')
+        kw.setdefault('uid', '1')
+        kw['k'] = 'attr'
+        steps.append(kw)
+    v1 = rng.choice(V1)
+    A(form='mod', ver=v1, attr=['Object Group', 0, ['T', 'renamed']])
+    steps.append({'k': 'other', 'what': 'get', 'uid': '2', 'user': 'alice'})
+    A(form='mod', ver=V2, new=['Object Group', ['T', 'renamed2']], cur=['T', 'h'])
+    A(form='mod', ver=v1, attr=['Application Specific Information', 1, ['A', 'nsX', 'dX']])
+    A(form='mod', ver=V2, new=['Application Specific Information', ['A', 'nsY', 'dY']], cur=['A', 'ns0', 'd0'])
+    A(form='mod', ver=v1, attr=['Name', 0, ['T', 'z']])
+    A(form='mod', ver=V2, new=['Name', ['T', 'y']], cur=['T', 'b'])
+    A(form='del', ver=v1, name='Object Group', idx=1, uid='3', user='bob')
+    A(form='del', ver=V2, cur=['Application Specific Information', ['A', 'ns1', 'd1']], uid='3', user='bob')
+    A(form='del', ver=V2, cur=['Name', ['T', 'a']], uid='3', user='bob')
+    A(form='del', ver=V2, ref='Object Group', uid='2')
+    A(form='del', ver=v1, name='Application Specific Information', idx=None, uid='2')
+    A(form='set', ver=V2, new=['Sensitive', ['B', True]], uid='2')
+    return {'objects': objs, 'steps': steps}
 
 
 def random_history(rng, names, n_steps):
@@ -787,31 +835,34 @@ def random_history(rng, names, n_steps):
 
 
 def run_batch(ctx, w, workdir):
-    """w = {'objects', 'batch': [failing step, succeeding step], 'version'}: both items in ONE request (CONTINUE)."""
-    eng = fresh_engine(workdir)
-    try:
-        for s in w['objects']:
-            make_object(eng, s)
-        pre, _ = observe(eng)
-        bad, good = w['batch']
-        ver = tuple(w['version'])
-        r = eng.request([build_item(bad), build_item(good)], version=ver, user='alice',
-                        batch_option=enums.BatchErrorContinuationOption.CONTINUE)
-        if r['error'] is not None or len(r['items']) != 2:
-            raise RuntimeError('batch of two attribute items was not answered item by item: %r' % (r['error'],))
-        ok1, ok2 = kdrv.ok(r['items'][0]), kdrv.ok(r['items'][1])
-        post, _ = observe(eng)
-        if not ok1 and ok2:
-            exp = expected_after_success(good, ver, pre[0])
-            want = [dict(o) for o in pre]
-            want[0][exp[0]] = exp[1]
-            if want != post:
-                ctx.violation(sig_of(bad, ver, 'failed-batch-item-left-trace'),
-                              dict(w, before=pre, after=post, results=[r['items'][0]['reason'], 'SUCCESS']),
-                              'a failed attribute item changed what a later item of the same batch committed')
-        return ok1, ok2
-    finally:
-        eng.close()
+    """w = {'objects', 'batch': [failing step, succeeding step], 'version'}: both items in ONE request (CONTINUE) against a
+    twin engine that receives the succeeding item alone: both databases must end up with the same observation."""
+    bad, good = w['batch']
+    ver = tuple(w['version'])
+    obs = []
+    oks = None
+    for items in ([bad, good], [good]):
+        eng = fresh_engine(workdir)
+        try:
+            for s in w['objects']:
+                make_object(eng, s)
+            r = eng.request([build_item(x) for x in items], version=ver, user='alice',
+                            batch_option=enums.BatchErrorContinuationOption.CONTINUE)
+            if r['error'] is not None or len(r['items']) != len(items):
+                raise RuntimeError('batch of attribute items was not answered item by item: %r' % (r['error'],))
+            if len(items) == 2:
+                oks = (kdrv.ok(r['items'][0]), kdrv.ok(r['items'][1]), r['items'][0]['reason'])
+            else:
+                oks = oks + (kdrv.ok(r['items'][0]),)
+            obs.append(observe(eng)[0])
+        finally:
+            eng.close()
+    ok1, ok2, reason1, ok_alone = oks
+    if not ok1 and (ok2 != ok_alone or obs[0] != obs[1]):
+        ctx.violation(sig_of(bad, ver, 'failed-batch-item-left-trace'),
+                      dict(w, with_failed_item_first=obs[0], without_it=obs[1], results=[reason1, ok2, ok_alone]),
+                      'a failed attribute item changed what a later item of the same batch did or committed')
+    return ok1, ok2
 
 
 def batch_frame_oracle(ctx, rng, workdir, rounds):
@@ -887,6 +938,8 @@ def histories_for(ctx):
             hs.append(('grid', grid_history(rng, name, t, V1[(i + len(hs)) % 5])))
     for _ in range(3 if quick else 20):
         hs.append(('odd', odd_history(rng)))
+    for t in (types if not quick else [types[ctx.seed % 7], types[(ctx.seed + 2) % 7], types[(ctx.seed + 4) % 7]]):
+        hs.append(('shared', shared_history(rng, t)))
     for _ in range(60 if quick else 600):
         hs.append(('random', random_history(rng, names + [BOGUS], 14)))
     return hs
@@ -903,7 +956,7 @@ def run(ctx):
                        'object type, result); non-trivial = the object exists and the caller owns it.')
     load_local_findings(ctx)
     ctx.regen(only=['attrrules', 'enums'])
-    proved = ctx.prove('props/C15.v')
+    proved = ctx.prove('props/C15.v', extra_targets=['theories/AttrOps/Cases.v'])
     work = ctx.work
     hs = histories_for(ctx)
     cases, metas = [], []
@@ -949,8 +1002,8 @@ def run(ctx):
                 for o in h['objects']:
                     o['mask'] = None
                 run_history(ctx, h, work)
-    order = {'protected-changed': 0, 'failure-changed-store': 1, 'failed-batch-item-left-trace': 1, 'other-object-changed': 2,
-             'inexact-effect': 3, 'no-exact-effect-possible': 4}
+    order = {'protected-changed': 0, 'other-object-changed': 1, 'failure-changed-store': 2, 'inexact-effect': 3,
+             'failed-batch-item-left-trace': 4, 'no-exact-effect-possible': 5}
     n = batch_frame_oracle(ctx, ctx.subrng('batch'), work, 30 if ctx.tier == 'quick' else 300)
     ctx.violations.sort(key=lambda v: order.get(v['signature'].get('kind'), 9))
     ctx.log('batch frame oracle: %d batches' % n)
